@@ -140,6 +140,8 @@ UNITS += [
       unwindset={"memcmp.0": 21}, assumes=[A_DROP, A_CLONE, A_CONST, A_TT, A_FMT, A_EXTRACT]),
     U("L-flags", ["lemma over the contracts of U-step-plain / U-step-spread / U-step-dir / U-flagfinal"], ["flags_lemma"], ["C13"], backend="verus",
       domain="attribute sequences of ANY length (induction): unbounded", assumes=["the abstract step of the directive arms (K_DIR_*, K_VMODEL_*) in the lemma is the contract checked by U-step-dir"]),
+    U("L-flagword", ["patch_flags::PatchFlags (constants extracted each run)", "VueJsxTransformVisitor::transform_attrs[flag finalisation: word built from the six inserted flags]"], ["flagword_lemma"], ["C13"], backend="verus",
+      domain="all 2^6 flag combinations over the real constants (bit-vector proof): complete", assumes=["bitflags! API (insert = bit-or, is_empty = bits==0, == on bits, bits()) is assumed, the macro wrapper is dropped by the extraction", "`bits() as f64` is exact for every i16"]),
 ]
 
 CHILDREN = ["children_none", "children_text", "children_expr", "children_empty_expr", "children_text_expr", "children_expr_empty", "children_text_bound_ident",
